@@ -263,7 +263,7 @@ def _append_hexital(prop, res, repo):
             mgrs[key] = o
         inds = {}
         for n_ in ("A", "B"):
-            o = cs.ObjV(f"indicator {n_}", {"name": n_, "timeframe": None if n_ == "A" else "T5", "candles": [], "_candles": mgrs[default if n_ == "A" else "T5"], "sub_indicators": {}, "managed_indicators": {}}, "Indicator")
+            o = cs.ObjV(f"indicator {n_}", {"name": n_, "timeframe": None if n_ == "A" else "T5", "candles": [], "_candles": mgrs[default if n_ == "A" else "T5"], "sub_indicators": {}, "managed_indicators": {}, "_initialised": True, "candle_manager": mgrs[default if n_ == "A" else "T5"], "_active_index": 0}, "Indicator")
             for meth in ("calculate", "calculate_index", "recalculate", "purge", "_calculate_reading", "_set_reading"):
                 o.attrs[meth] = (lambda a, k, nn=n_, mm=meth: events.append((mm, nn)))
             inds[n_] = o
